@@ -565,6 +565,108 @@ def case_chain(seed):
     return {"viol": viol, "nslots": len(exp), "nontrivial": True, "hash": core.h(files), "relations": [], "sample": None}
 
 
+def observe_tbgeneric(item):
+    cap = observe.Captured()
+    try:
+        project, cap = observe.parse_and_correlate([item["root"]], cap=cap)
+    except BaseException as e:
+        import traceback
+
+        return {"error": f"{type(e).__name__}: {e}", "tb": traceback.format_exc()[-1500:]}
+    out = {}
+    for m in project.modules:
+        for t in m.types:
+            for bp in t.boundprocs:
+                if not getattr(bp, "generic", False):
+                    continue
+                ids = []
+                for b in bp.bindings:
+                    if isinstance(b, str):
+                        ids.append("text:" + b.lower())
+                    elif type(b).__name__ == "FortranBoundProcedure":
+                        tgt = [x if isinstance(x, str) else ent_path(x) for x in b.bindings]
+                        ids.append(f"binding:{b.parent.name.lower()}%{b.name.lower()}->{','.join(tgt)}")
+                    else:
+                        ids.append(f"{type(b).__name__}:{ent_path(b)}")
+                out[f"{m.name.lower()}/{t.name.lower()}%{bp.name.lower()}"] = ids
+    return {"generics": out}
+
+
+def case_tbgeneric(seed):
+    """The names after `=>` of a type-bound GENERIC are bindings of the type (its own or inherited ones), never procedures: with
+    same-named module procedures as decoys, private specific bindings inherited across modules, and parents outside the project."""
+    rng = random.Random(seed)
+    sx = seed % 997
+    A, B, Cm = f"tga{sx}", f"tgb{sx}", f"tgc{sx}"
+    spec1, spec2 = rng.sample(["add_int", "add_real", "put_one", "put_two"], 2)
+    priv = rng.random() < 0.6
+    pa = "private" if priv else "public"
+    files = {}
+    files[A] = "\n".join([f"module {A}", "implicit none", "private", "public :: counter", "type :: counter", "integer :: n = 0", "contains",
+                          f"procedure, {pa} :: {spec1}", f"procedure, {pa} :: {spec2} => impl_{spec2}", f"generic, public :: add => {cs(rng, spec1)}, {spec2}", "end type counter", "contains",
+                          f"subroutine {spec1}(self, k)", "class(counter), intent(inout) :: self", "integer, intent(in) :: k", f"end subroutine {spec1}",
+                          f"subroutine impl_{spec2}(self, x)", "class(counter), intent(inout) :: self", "real, intent(in) :: x", f"end subroutine impl_{spec2}", f"end module {A}"]) + "\n"
+    decoy = rng.random() < 0.8
+    own_generic = rng.random() < 0.4  # the extending type adds a specific of its own to the inherited generic
+    L = [f"module {B}", f"use {A}, only: counter", "implicit none", "type, extends(counter) :: tally", "integer :: total = 0"]
+    if own_generic:
+        L += ["contains", "procedure :: add_mine", "generic :: add => add_mine"]
+    L += ["end type tally", "contains"]
+    if decoy:
+        for sp in (spec1, spec2):
+            L += [f"subroutine {sp}(a, b)", "integer, intent(inout) :: a", "integer, intent(in) :: b", f"end subroutine {sp}"]
+    if own_generic:
+        L += ["subroutine add_mine(self, c)", "class(tally), intent(inout) :: self", "character(*), intent(in) :: c", "end subroutine add_mine"]
+    if not decoy and not own_generic:
+        L += ["subroutine unrelated()", "end subroutine unrelated"]
+    L.append(f"end module {B}")
+    files[B] = "\n".join(L) + "\n"
+    # parent type from a module that is not part of the project: the inherited binding is unknown, a module procedure has its name
+    files[Cm] = "\n".join([f"module {Cm}", f"use third_party_shapes{sx}, only: shape_base", "implicit none", "type, extends(shape_base) :: square", "real :: side", "contains",
+                           "generic :: describe => print_info", "end type square", "contains", "subroutine print_info(unit)", "integer, intent(in) :: unit", "end subroutine print_info",
+                           f"end module {Cm}"]) + "\n"
+    names = list(files)
+    rng.shuffle(names)
+    base = core.mktemp("vf_c07g_")
+    try:
+        root = os.path.join(base, "src")
+        os.makedirs(root)
+        for rank, n in enumerate(names):
+            open(os.path.join(root, f"f{rank}_{n}.f90"), "w").write(files[n])
+        st, r = core.run_alone(observe_tbgeneric, {"root": root}, timeout=120)
+    finally:
+        shutil.rmtree(base, ignore_errors=True)
+    if st != "ok" or "error" in (r or {}):
+        return {"viol": [{"kf": {"kind": "ford_failed" if st == "ok" else "harness_" + st}, "w": {"detail": str(r)[-900:], "seed": seed, "files": files, "case": "tbgeneric"}}],
+                "nslots": 0, "nontrivial": False, "hash": core.h(files), "sample": None, "relations": []}
+    viol = []
+    n = 0
+    G = r["generics"]
+    want_targets = {spec1: f"{A}::{spec1}", spec2: f"{A}::impl_{spec2}"}
+    for key, ids in G.items():
+        for b in ids:
+            n += 1
+            bad = None
+            if not b.startswith(("text:", "binding:")):
+                bad = "specific_of_type_bound_generic_resolved_to_procedure"
+            elif b.startswith("binding:"):
+                owner_name = b[len("binding:"):].split("->")[0]
+                tname, _, bname = owner_name.partition("%")
+                tgt = b.split("->", 1)[1]
+                if key.startswith((A + "/", B + "/")) and bname in want_targets and not tgt.lower().endswith(want_targets[bname].lower()):
+                    bad = "specific_binding_bound_to_other_procedure"
+                if key.startswith(Cm + "/"):
+                    bad = "unknown_inherited_binding_resolved"
+            if bad:
+                viol.append({"kf": {"kind": "wrong_resolution", "slot": "typebound_generic_specific", "variant": bad},
+                             "w": {"generic": key, "specific": b, "all": G, "seed": seed, "files": files, "case": "tbgeneric"}})
+    for key in (f"{A}/counter%add", f"{B}/tally%add", f"{Cm}/square%describe"):
+        if key not in G:
+            viol.append({"kf": {"kind": "wrong_resolution", "slot": "typebound_generic_specific", "variant": "generic_missing"},
+                         "w": {"generic": key, "all": G, "seed": seed, "files": files, "case": "tbgeneric"}})
+    return {"viol": viol, "nslots": n, "nontrivial": True, "hash": core.h(files), "relations": [], "sample": None}
+
+
 def case_order(seed):
     """Resolution must not depend on the order in which modules are correlated: (a) a USE that appears only in a deeply nested
     procedure, of a module that merely re-exports the name, with a same-named entity in the host; (b) a generic interface named
@@ -665,7 +767,7 @@ def case_order(seed):
 
 def dispatch(arg):
     kind, seed = arg
-    return {"scoping": case_scoping, "submodules": case_submodules, "chain": case_chain, "order": case_order}[kind](seed)
+    return {"scoping": case_scoping, "submodules": case_submodules, "chain": case_chain, "order": case_order, "tbgeneric": case_tbgeneric}[kind](seed)
 
 
 def main():
@@ -694,7 +796,7 @@ def main():
         sys.exit(1 if bad else 0)
     n = 4000 if run.tier == "thorough" else 500
     args = ([("scoping", run.seed * 100003 + i) for i in range(n)] + [("submodules", run.seed * 100003 + i) for i in range(n // 10)]
-            + [("chain", run.seed * 100003 + i) for i in range(n // 10)] + [("order", run.seed * 100003 + i) for i in range(n // 5)])
+            + [("chain", run.seed * 100003 + i) for i in range(n // 10)] + [("order", run.seed * 100003 + i) for i in range(n // 5)] + [("tbgeneric", run.seed * 100003 + i) for i in range(n // 5)])
     results = core.fork_map(dispatch, args, per_case_fork=False, case_timeout=300, total_timeout=3400)
     for a, (st, r) in zip(args, results):
         if st != "ok":
@@ -705,7 +807,7 @@ def main():
         for v in r["viol"]:
             run.violation(v["kf"], v["w"])
     run.max_samples = 2
-    run.finish(floors={"evaluations": 400, "distinct_nontrivial": 250, "slots_compared_scoping": 5000, "slots_compared_submodules": 100, "slots_compared_chain": 100, "slots_compared_order": 100})
+    run.finish(floors={"evaluations": 400, "distinct_nontrivial": 250, "slots_compared_scoping": 5000, "slots_compared_submodules": 100, "slots_compared_chain": 100, "slots_compared_order": 100, "slots_compared_tbgeneric": 300})
 
 
 if __name__ == "__main__":
